@@ -298,6 +298,43 @@ func init() {
 			famEdgeHist(c, defaultCfg, allButVerrs, "edge-pairs+sp", true, func(d *Driver, hc histCase, h *implHist, steps []Step, start Obs) {
 				c12Replay(c, hc)
 			})
+			// SetSearch with the URL's own current search text after list mutations whose serialization does not read back as the
+			// list (a value that is escape text, invalid UTF-8, a plus sign): the list must become the parse of the query again
+			{
+				starts := []string{"http://h/p?x=1", "sc://h/p", "mailto:a@b?s=1#f", "file:///C:/x?", "http://h/?%41=%2541"}
+				pairs := [][2]string{{"a", "%41"}, {"%62", "v"}, {"k\xff", "v"}, {"k", "a+b"}, {"a b", "c&d=e"}, {"", ""}, {"%", "%zz"}, {"é", "\u2028"}}
+				type job struct {
+					start string
+					ops   []Op
+				}
+				var jobs []job
+				for _, st := range starts {
+					for _, pr := range pairs {
+						for form := 0; form < 3; form++ {
+							for _, mut := range []string{"a", "t"} {
+								u, err := defaultCfg.Parser.Parse(st)
+								if err != nil {
+									continue
+								}
+								if mut == "a" {
+									u.SearchParams().Append(pr[0], pr[1])
+								} else {
+									u.SearchParams().Set(pr[0], pr[1])
+								}
+								self := []string{u.Search(), u.Query(), "?" + u.Query()}[form]
+								jobs = append(jobs, job{st, []Op{{K: mut, A: pr[0], B: pr[1]}, {K: "s", W: 7, A: self}, {K: "q", A: pr[0]}, {K: "a", A: "z", B: "1"}}})
+							}
+						}
+					}
+				}
+				c.Pool.Run(len(jobs), func(d *Driver, i int) {
+					j := jobs[i]
+					hc := histCase{defaultCfg, nil, j.start, j.ops, "set-search-to-itself", i}
+					if h, _, _ := c.cmpHist(d, defaultCfg, nil, j.start, j.ops, allButVerrs, "set-search-to-itself", i); h != nil {
+						c12Replay(c, hc)
+					}
+				})
+			}
 			// under the diagnostics options a setter may stop at a validation error: URL and list must agree then too
 			for _, n := range []string{"fail", "report", "fail+report", "singlePct+lax", "specialAdd", "skipEq", "collapse+skipDrive", "queryC+squeryA"} {
 				cfg := cfgFromDesc(n)
